@@ -96,8 +96,48 @@ def _run_cli(cmd, text, timeout_s):
             pass
 
 
-def check_sat(fs, timeout_ms=2000, portfolio=False):
-    """Satisfiability of the conjunction.  -> (status, model|None, backend)"""
+def _race_cli(text, tsec):
+    """start cvc5 and z3 4.8.12 on the SMT-LIB text; returns list of (name, Popen, path)"""
+    os.makedirs(WORK, exist_ok=True)
+    procs = []
+    for name, cmd, prefix in (("z3-4.8.12", ["/usr/bin/z3", "-T:%d" % tsec], ""),
+                              ("cvc5-1.0.3", ["/usr/bin/cvc5", "--tlimit=%d" % (tsec * 1000), "--nl-ext-tplanes"], "(set-logic ALL)\n")):
+        if not os.path.exists(cmd[0]):
+            continue
+        fd, path = tempfile.mkstemp(suffix=".smt2", dir=WORK)
+        with os.fdopen(fd, "w") as fh:
+            fh.write(prefix + text)
+        try:
+            p = subprocess.Popen(cmd + [path], stdout=subprocess.PIPE, stderr=subprocess.DEVNULL, text=True)
+        except OSError:
+            os.unlink(path)
+            continue
+        procs.append((name, p, path))
+    return procs
+
+
+def _reap(procs):
+    for name, p, path in procs:
+        if p.poll() is None:
+            try:
+                p.kill()
+            except OSError:
+                pass
+        try:
+            p.communicate(timeout=5)
+        except Exception:
+            pass
+        try:
+            os.unlink(path)
+        except OSError:
+            pass
+
+
+def check_sat(fs, timeout_ms=2000, portfolio=False, skip_default=False):
+    """Satisfiability of the conjunction.  -> (status, model|None, backend)
+    portfolio: z3 5.1 default tactic first; if undecided, z3 5.1 qfnra-nlsat
+    in-process raced against the command-line cvc5 and z3 4.8.12 (only their
+    `unsat` answers are used; a model always comes from z3 5.1)."""
     fs = _norm(fs)
     if fs is None:
         return "unsat", None, "trivial"
@@ -105,31 +145,62 @@ def check_sat(fs, timeout_ms=2000, portfolio=False):
         return "sat", None, "trivial"
     STATS["queries"] += 1
     t0 = time.time()
+    procs = []
     try:
-        st, m = _check_inproc(fs, timeout_ms)
-        if st != "unknown":
-            STATS["z3"] += 1
-            return st, m, "z3-5.1"
-        if not portfolio:
-            return st, None, "z3-5.1"
+        if not (portfolio and skip_default):
+            st, m = _check_inproc(fs, timeout_ms if not portfolio else min(timeout_ms, 4000))
+            if st != "unknown":
+                STATS["z3"] += 1
+                return st, m, "z3-5.1"
+            if not portfolio:
+                return st, None, "z3-5.1"
+        tsec = max(1, int(timeout_ms / 1000))
+        procs = _race_cli(to_smt2(fs), tsec)
+        found = {}
+        ctx = z3.main_ctx()
+        stop = threading.Event()
+
+        def watch():
+            deadline = time.time() + tsec + 2
+            while not stop.is_set() and time.time() < deadline:
+                alive = False
+                for name, p, path in procs:
+                    if p.poll() is None:
+                        alive = True
+                        continue
+                    if name in found:
+                        continue
+                    try:
+                        out = (p.stdout.read() or "").strip().splitlines()
+                    except Exception:
+                        out = []
+                    found[name] = out[0].strip() if out else "unknown"
+                    if found[name] == "unsat":
+                        try:
+                            ctx.interrupt()
+                        except Exception:
+                            pass
+                        return
+                if not alive:
+                    return
+                time.sleep(0.05)
+
+        th = threading.Thread(target=watch, daemon=True)
+        th.start()
         st, m = _check_inproc(fs, timeout_ms, tactic="qfnra-nlsat")
         if st != "unknown":
+            stop.set()
             STATS["z3-nlsat"] += 1
             return st, m, "z3-5.1/qfnra-nlsat"
-        text = to_smt2(fs)
-        tsec = max(1, int(timeout_ms / 1000))
-        if os.path.exists("/usr/bin/cvc5"):
-            st = _run_cli(["/usr/bin/cvc5", "--tlimit=%d" % (tsec * 1000), "--nl-ext-tplanes"], "(set-logic ALL)\n" + text, tsec)
-            if st == "unsat":
-                STATS["cvc5-cli"] += 1
-                return st, None, "cvc5-1.0.3"
-        if os.path.exists("/usr/bin/z3"):
-            st = _run_cli(["/usr/bin/z3", "-T:%d" % tsec], text, tsec)
-            if st == "unsat":
-                STATS["z3-4.8-cli"] += 1
-                return st, None, "z3-4.8.12"
+        th.join(max(0.0, tsec + 2 - (time.time() - t0)))
+        stop.set()
+        for name in ("z3-4.8.12", "cvc5-1.0.3"):
+            if found.get(name) == "unsat":
+                STATS["z3-4.8-cli" if name.startswith("z3") else "cvc5-cli"] += 1
+                return "unsat", None, name
         return "unknown", None, "all"
     finally:
+        _reap(procs)
         STATS["solver_s"] += time.time() - t0
 
 
@@ -177,7 +248,7 @@ def cone(goal_fs, facts):
     return [f for i, f in enumerate(facts) if keep[i]]
 
 
-def prove(goal, facts, timeout_ms=10000, use_cone=True, portfolio=True):
+def prove(goal, facts, timeout_ms=10000, use_cone=True, portfolio=True, skip_default=False):
     """Validity of facts => goal.
     -> dict(status=proved|refuted|undecided, backend, seconds, model)"""
     t0 = time.time()
@@ -188,7 +259,7 @@ def prove(goal, facts, timeout_ms=10000, use_cone=True, portfolio=True):
         return dict(status="proved", backend="trivial(facts false)", seconds=0.0, model=None)
     ng = z3.Not(goal) if goal is not False else True
     fs = cone([ng], facts) if use_cone else list(facts)
-    st, m, be = check_sat(fs + [ng], timeout_ms, portfolio=portfolio)
+    st, m, be = check_sat(fs + [ng], timeout_ms, portfolio=portfolio, skip_default=skip_default)
     if st == "unsat":
         return dict(status="proved", backend=be, seconds=time.time() - t0, model=None)
     if st == "sat" and use_cone and len(fs) != len(facts):
